@@ -70,10 +70,13 @@ const matchExpr = `^([^ ]*) ?([^ ]*) ?([^ ]*)$`
 var (
 	keyPool  = []string{"a", "b", "c", "aa", "B", `"q"`, "x,y", "", "é", "\xff", "\t", "k\r", "10", "9", "-", "a\"b", ",", "\r"}
 	subPool  = []string{"x", "y", "z", "", `"`, "p,q", "X", "2", "11", "\r", "é"}
-	incPool  = []string{"1", "2", "-3", "0", "7", "1000000", "9223372036854775807", "-9223372036854775808", "abc", "1.5", "+5", "", " "}
+	incPool  = []string{"1", "2", "-3", "0", "7", "1000000", "9223372036854775807", "-9223372036854775808", "abc", "1.5", "+5", "", " ", "-", "+", "9223372036854775808", "007", "0x10", "1_0"}
 	goodIncs = []string{"1", "2", "-3", "0", "7", "1000000", "41"}
 	numPool  = []string{"1", "2", "3", "3", "10", "-4", "0", "250", "7", "7", "1000", "15", "2.5", "-0.5", "1e3", "abc", ""}
 )
+
+var ignorePool = []string{`{eq {1} a}`, `{eq {2} x}`, `{not {2}}`, `{lt {len {0}} 3}`, `{eq {1} b}`, `{eq {2} y}`, `{prefix {1} k}`}
+var ignoreIdx = []int{0, 1, 2, 3, 4, 5, 6}
 
 func genLines(t *rapid.T, cmd string) []pbt.S {
 	n := rapid.IntRange(0, 60).Draw(t, "nlines")
@@ -292,8 +295,15 @@ func gen(t *rapid.T) Case {
 			opt("cols", "--cols", small("colsN"))
 		}
 	}
-	if rapid.IntRange(0, 3).Draw(t, "ignore") == 0 {
-		c.Ignores = []string{rapid.SampledFrom([]string{`{eq {1} a}`, `{eq {2} x}`, `{not {2}}`, `{lt {len {0}} 3}`}).Draw(t, "ig")}
+	switch rapid.IntRange(0, 5).Draw(t, "ignore") {
+	case 0:
+		c.Ignores = []string{rapid.SampledFrom(ignorePool).Draw(t, "ig")}
+	case 1:
+		// several -i expressions that fire on different lines (the ignore set is shared by all workers)
+		n := rapid.IntRange(2, 3).Draw(t, "nignore")
+		for _, i := range rapid.Permutation(ignoreIdx).Draw(t, "igs")[:n] {
+			c.Ignores = append(c.Ignores, ignorePool[i])
+		}
 	}
 	serial := c.Cmd == "reduce-serial"
 	nt := rapid.IntRange(2, 3).Draw(t, "ntunings")
@@ -988,6 +998,7 @@ func check(c Case) error {
 		o.Label(ref.parseErrors > 0, "parse-errors(exit 2)")
 		o.Label(ref.matched == 0, "no-match(exit 1)")
 		o.Label(true, "cmd:"+c.Cmd)
+		o.Label(len(c.Ignores) >= 2, ">=2-ignore-expressions")
 		for _, f := range c.Flags {
 			switch f {
 			case "-a", "-b", "--percentage", "--atleast", "--num", "--cols", "--rowtotal", "--coltotal", "--min", "--max", "--reverse", "--table":
